@@ -136,6 +136,8 @@ class _W:
         if k == "r":
             return f"<rest{_attrs(a)}/>"
         if k == "s":
+            if self.o.get("bare_space") and self.rng.random() < 0.5:
+                a = {k_: v_ for k_, v_ in a.items() if k_ != "xml:id"}          # (spaces are usually written without an id)
             return f"<space{_attrs(a)}/>"
         if k in ("n", "g"):
             step, alter, octave = ev["p"][0][:3]
